@@ -82,6 +82,7 @@ def c06(ctx):
     sem.allot_apalache(ctx, vecs)
     n, b = scale(ctx, (3000, 6), (8000, 24))
     sem.trace_batches(ctx, "allot", "MachineTrace_C06.cfg", n, b)
+    sem.scale_lift(ctx, 600 if ctx.tier == "quick" else 6000)
     return ctx.finish("model_checking", "single-allotment sends (source side: each clause from its own unbounded-overdraft account; destination side: "
                       "each clause to its own account or kept) with literal / percent / variable portions and optional remaining, totals 0..10^5; "
                       "distinct = distinct (tree shape, outcome, number of postings); non-trivial = >= 2 postings or rejected sum")
@@ -376,6 +377,9 @@ def replay(path):
                 return 1
             print("not reproduced")
             return 0
+        if rp["kind"] == "scale":
+            print(json.dumps(rp.get("case"), indent=1)[:3000])
+            return CHECKS["C06"](Ctx("C06", "quick", int(rp.get("seed", 1))))
         if rp["kind"] in ("conc", "race"):
             print("re-run: VERIF_SEED=%s ./vcheck C11 (the corpus is regenerated from the seed); recorded case:" % rp.get("seed"))
             print(json.dumps(rp.get("case", rp.get("report")), indent=1)[:3000])
